@@ -16,7 +16,8 @@ def c07(chk):
                 "and close within the byte bound: Conservation (no loss, no duplication), NeverZeroWithoutError, "
                 "ErrorOnlyAtEndOfStream, and all written bytes eventually delivered under fair reads; (2) a "
                 "complete transition cover of a bounded model replayed on a bare pair of pkg/websocket connections "
-                "and on real tunnels (dialer -> node -> listener; dialer -> node a -> node b -> listener); seeded "
+                "and on real tunnels (dialer -> node -> listener; dialer -> node a -> node b -> listener; TCP client -> "
+                "piko forward -> node a -> node b -> agent TCP proxy -> local TCP service); seeded "
                 "random schedules in both directions with sizes up to 70 kB and 1-byte reads; every Write/Read/"
                 "Close judged by TLC (TraceWs.tla): offsets proven by content, n within the buffer, nothing before "
                 "it was written, zero only with an error, end-of-stream (not a timeout) after the peer closed")
@@ -43,7 +44,12 @@ def c07(chk):
                        what="the real connections", strip=("walks",), timeout=3400)
     for k, n in st["by_op"].items():
         ops[k] = ops.get(k, 0) + n
-    walks = {"paths": ["pair", "tunnel1", "tunnel2"], "walks": 12 if quick else 400, "depth": 60}
+    v, st = engine.run(chk, "weng", {"paths": ["chain"], "behaviours": beh[: (25 if quick else 1000)]},
+                       "cover-chain", "TraceWs", TRACE_CONSTS, ["NoStepViolation"], "weng-trace",
+                       what="the real connections", strip=("walks",), timeout=3400)
+    for k, n in st["by_op"].items():
+        ops[k] = ops.get(k, 0) + n
+    walks = {"paths": ["pair", "tunnel1", "tunnel2", "chain"], "walks": 12 if quick else 400, "depth": 60}
     v, st = engine.run(chk, "weng", walks, "walks", "TraceWs", TRACE_CONSTS, ["NoStepViolation"], "weng-trace",
                        what="the real connections", strip=("walks",), timeout=3400)
     for k, n in st["by_op"].items():
